@@ -455,7 +455,7 @@ func genHeap(g *c14Gen) {
 	var rate uint64
 	hasRate := r.Chance(85)
 	if hasRate {
-		rate = []uint64{0, 1, 2, 3, 1024, 524288, 1 << 20, 512}[r.Intn(8)]
+		rate = []uint64{0, 1, 2, 3, 4, 5, 1024, 524288, 1 << 20, 512}[r.Intn(10)]
 	}
 	g.optNat(hasRate, rate)
 	period := uint64(1)
@@ -468,6 +468,20 @@ func genHeap(g *c14Gen) {
 	}
 	if !hasRate && v2 {
 		period = 0
+	}
+	if v2 {
+		switch {
+		case !hasRate:
+			g.tag("heap:v2,rate=absent")
+		case period == 0:
+			g.tag("heap:v2,period=0")
+		case period == 1:
+			g.tag("heap:v2,period=1")
+		case period == 2:
+			g.tag("heap:v2,period=2")
+		default:
+			g.tag("heap:v2,period>2")
+		}
 	}
 	g.w.n(r.Intn(3)) // pad
 	g.width()
@@ -524,28 +538,61 @@ func genContention(g *c14Gen) {
 	default:
 		g.w.n(2)
 	}
-	na := r.Intn(6)
-	g.w.n(na)
+	// sampling period x cycles/second: every combination of {absent, 0, 1, >1} x {absent, 0, >0};
+	// an attribute may be given twice (the later line wins), other attributes are mixed in
+	type attr struct {
+		key int
+		v   uint64
+	}
+	var attrs []attr
 	period, hz := uint64(1), uint64(0)
-	for i := 0; i < na; i++ {
+	pcase, hcase := r.Intn(6), r.Intn(5)
+	ptag, htag := "absent", "absent"
+	if pcase > 0 {
+		period = []uint64{0, 0, 1, 2, 100, 1000}[pcase]
+		if r.Chance(20) {
+			attrs = append(attrs, attr{1, []uint64{0, 1, 7}[r.Intn(3)]}) // overridden below
+		}
+		attrs = append(attrs, attr{1, period})
+		ptag = []string{"", "0", "1", ">1", ">1", ">1"}[pcase]
+	}
+	if hcase > 0 {
+		hz = []uint64{0, 0, 1000000, 1000000000, 3201000000}[hcase]
+		if r.Chance(20) {
+			attrs = append(attrs, attr{0, []uint64{0, 2000000000}[r.Intn(2)]}) // overridden below
+		}
+		attrs = append(attrs, attr{0, hz})
+		htag = []string{"", "0", ">0", ">0", ">0"}[hcase]
+	}
+	g.tag("contention:period=" + ptag + ",hz=" + htag)
+	if r.Chance(50) {
+		attrs = append(attrs, attr{2, uint64(r.Intn(1 << 30))})
+	}
+	if r.Chance(50) {
+		attrs = append(attrs, attr{3, uint64(r.Intn(100))})
+	}
+	// shuffle, keeping the relative order of equal keys (the later assignment must stay later)
+	for i := len(attrs) - 1; i > 0; i-- {
+		j := r.Intn(i + 1)
+		if attrs[i].key != attrs[j].key {
+			ok := true
+			lo, hi := j, i
+			for x := lo; x <= hi; x++ {
+				if x != i && x != j && (attrs[x].key == attrs[i].key || attrs[x].key == attrs[j].key) {
+					ok = false
+				}
+			}
+			if ok {
+				attrs[i], attrs[j] = attrs[j], attrs[i]
+			}
+		}
+	}
+	g.w.n(len(attrs))
+	for _, a := range attrs {
 		g.fillers(15)
 		g.w.n(r.Intn(3))
-		key := r.Intn(4)
-		g.w.n(key)
-		var v uint64
-		switch key {
-		case 0:
-			v = []uint64{0, 1000000, 3201000000, 2000000000, 1000000000}[r.Intn(5)]
-			hz = v
-		case 1:
-			v = []uint64{0, 1, 2, 100, 1000}[r.Intn(5)]
-			period = v
-		case 2:
-			v = uint64(r.Intn(1 << 30))
-		default:
-			v = uint64(r.Intn(100))
-		}
-		g.w.nat(v)
+		g.w.n(a.key)
+		g.w.nat(a.v)
 		g.w.bool(r.Bool())
 	}
 	if period > 0 && hz > 0 {
@@ -953,7 +1000,7 @@ func bucket(n int) string {
 }
 
 func runC14(c *Ctx) {
-	c.Res.Rule = "random document models of the 6 legacy formats (count, heap incl. heap_v2/heapprofile/heap/growth/fragmentation, contention/mutex, threadz, binary CPU in 4 word layouts, Java heapz/contentionz): 0–80 records, addresses from a pool with boundary values (0,1,2^32,2^63,2^64-1) and repeats, header variants, comment/blank lines, memory map in /proc/maps and brief form (adjacent, offset, non-executable, main-binary heuristics); printed by the Lean model, parsed by the real ParseData, compared with the documented conversion; non-trivial = at least one record with at least one address; distinct by document tokens"
+	c.Res.Rule = "random document models of the 6 legacy formats (count, heap incl. heap_v2/heapprofile/heap/growth/fragmentation, contention/mutex, threadz, binary CPU in 4 word layouts, Java heapz/contentionz): 0–80 records, addresses from a pool with boundary values (0,1,2^32,2^63,2^64-1) and repeats, header variants, comment/blank lines, memory map in /proc/maps and brief form (adjacent, offset, non-executable, main-binary heuristics); boundary-exact strategies for the parsers' thresholds: CPU sample counts 31/32/33/63/…/129 with exactly k ∈ {0,1,⌊n/32⌋,⌊n/32⌋+1,…} samples lacking the (fresh-address) signal-handler frame, for the first and for the second removal iteration, profiles without end marker (nstk bound), heap rates 0..5 (period 0/1/2 after halving), contention sampling period {absent,0,1,>1} × cycles/second {absent,0,>0}; printed by the Lean model, parsed by the real ParseData, compared with the documented conversion; non-trivial = at least one record with at least one address; distinct by document tokens"
 	if c.Replay != "" {
 		var cs c14Case
 		if err := c.LoadReplay(&cs); err != nil {
